@@ -255,3 +255,8 @@ Theorem C11_result_identities_distinct : forall order ordered t0 t1, dom t0 t1 -
   NoDup (ids (snd (diff_with order ordered false t0 t1))).
 Proof. exact result_ids_nodup. Qed.
 Print Assumptions C11_result_identities_distinct.
+
+(* the generated facts this property uses were lifted from the current source *)
+Theorem C11_generated_facts_present : GEN_ENUMS_OK = true.
+Proof. reflexivity. Qed.
+Print Assumptions C11_generated_facts_present.
